@@ -1,20 +1,21 @@
 ----------------------------- MODULE GlobTrace -----------------------------
 (* E3 for C48: results recorded from the real Globster / ExceptionGlobster / _OrderedGlobster / WorkingTree.
-   is_ignored are judged by the laws of Glob.  One row per ignore list:
+   is_ignored are judged by the laws of Glob.  One row per ignore list; names are given by their index in NameSeq
+   (the harness gets NameSeq from GlobGen; chk = [n, name] of every row re-checks that the numbering agrees):
 
      L     : the list (entries [pre, pat]);   nn : number of names the harness evaluated (must be all of them);
      obs   : the observers that were run (subset of eg, g, og, tr);
-     hits  : the names for which some observer reported something: [name, eg, g, og(, tr)] (see Glob: 0 = None,
+     hits  : the names for which some observer reported something: [n, eg, g, og(, tr)] (see Glob: 0 = None,
              i = canonical index of the reported pattern, 99 = not a pattern of the list / exception raised);
              every other name was reported None by every observer;
-     fills : the same observation (eg, g, og) repeated on the names fon (all names of hits and a sample of the
+     fills : the same observation (eg, g, og) repeated on the names fon (a sample of the names of hits and of the
              others) with never-matching filler patterns inserted, grouped by identical outcome: [labels, hits].
 
    Laws are evaluated on the names of hits and on the names on which some pattern matches under the spec; for
    all other names the observation is "all silent" and GlobGen proved (LawsHoldOnSpec, second conjunct) that
    this satisfies every law for exactly these lists.
-   Output: rows with failed laws ("chunk": some filler variant changed an outcome; "coverage": nn # NN) or
-   drift (reported pattern differs from the implementation-shaped prediction).                              *)
+   Output: rows with failed laws ("chunk": some filler variant changed an outcome; "coverage": nn # NN or the
+   numbering of names disagrees) or drift (reported pattern differs from the implementation-shaped prediction). *)
 EXTENDS Glob, Json, IOUtils
 Rows == JsonDeserialize(IOEnv.VF_IN)
 VARIABLE rowno    \* (not "i": a variable named like a bound identifier of Glob stops TLC caching its tables)
@@ -22,21 +23,27 @@ Init == rowno \in 1..Len(Rows)
 Next == UNCHANGED rowno
 
 Cand(L) == UNION {MT[L[k].pat] \cup CT[L[k].pat] : k \in DOMAIN L}
-HitNames(r) == {IndexOf[r.hits[k].name] : k \in DOMAIN r.hits}
+HitNames(r) == {r.hits[k].n : k \in DOMAIN r.hits}
 ObsRec(r, h) == [f \in Range(r.obs) |-> h[f]]
 Zero(r)      == [f \in Range(r.obs) |-> 0]
-Proj(h) == [name |-> h.name, eg |-> h.eg, g |-> h.g, og |-> h.og]
+Proj(h) == [n |-> h.n, eg |-> h.eg, g |-> h.g, og |-> h.og]
 HitSet(hs) == {Proj(hs[k]) : k \in {j \in DOMAIN hs : hs[j].eg # 0 \/ hs[j].g # 0 \/ hs[j].og # 0}}
-ChunkOK(r) == LET B == {h \in HitSet(r.hits) : h.name \in Range(r.fon)} IN
+ChunkOK(r) == LET B == {h \in HitSet(r.hits) : h.n \in Range(r.fon)} IN
               \A k \in DOMAIN r.fills : HitSet(r.fills[k].hits) = B
+Covered(r) == r.nn = NN /\ r.chk.n \in NameIdx /\ NameSeq[r.chk.n] = r.chk.name /\ HitNames(r) \subseteq NameIdx
 Judge(r) == LET Q == Cand(r.L) \ HitNames(r)  z == Zero(r) IN        \* Q: names that match but were reported by nobody
-    [failed |-> UNION {Failed(r.L, IndexOf[r.hits[k].name], ObsRec(r, r.hits[k])) : k \in DOMAIN r.hits}
+    IF ~Covered(r) THEN [failed |-> {"coverage"}, drift |-> FALSE] ELSE
+    [failed |-> UNION {Failed(r.L, r.hits[k].n, ObsRec(r, r.hits[k])) : k \in DOMAIN r.hits}
                 \cup UNION {Failed(r.L, n, z) : n \in Q}
-                \cup (IF ChunkOK(r) THEN {} ELSE {"chunk"}) \cup (IF r.nn = NN THEN {} ELSE {"coverage"}),
-     drift  |-> \/ \E k \in DOMAIN r.hits : Drift(r.L, IndexOf[r.hits[k].name], ObsRec(r, r.hits[k]))
+                \cup (IF ChunkOK(r) THEN {} ELSE {"chunk"}),
+     drift  |-> \/ \E k \in DOMAIN r.hits : Drift(r.L, r.hits[k].n, ObsRec(r, r.hits[k]))
                 \/ \E n \in Q : Drift(r.L, n, z)]
-Bad == SelectSeq([k \in 1..Len(Rows) |-> LET j == Judge(Rows[k]) IN
-                    [row |-> k, failed |-> SetToSeq(j.failed), drift |-> j.drift]],
-                 LAMBDA r : r.failed # <<>> \/ r.drift)
-ASSUME JsonSerialize(IOEnv.VF_OUT, [n |-> Len(Rows), bad |-> Bad])
+\* (Rows is passed as an argument so that it is evaluated once: TLC does not cache a definition that reads a file,
+\*  every reference to Rows parses the file again)
+Verdict(R) ==
+    [n |-> Len(R),
+     bad |-> SelectSeq([k \in 1..Len(R) |-> LET j == Judge(R[k]) IN
+                          [row |-> k, failed |-> SetToSeq(j.failed), drift |-> j.drift]],
+                       LAMBDA r : r.failed # <<>> \/ r.drift)]
+ASSUME JsonSerialize(IOEnv.VF_OUT, Verdict(Rows))
 =============================================================================
